@@ -1,26 +1,33 @@
 // C06: shard routing is a deterministic partition of series.  Runs the real FormatTagsKey,
-// Bucket and MetricMap.Split and prints what they returned next to the inputs.
+// Bucket, MetricMap.Split and BackendHandler.DispatchMetricMap (real workers, recording
+// aggregators) and prints what they returned next to the inputs.
 package main
 
 import (
+	"context"
 	"encoding/json"
 	"fmt"
 	"os"
+	"sort"
+	"sync"
+	"time"
 
 	"github.com/atlassian/gostatsd"
+	"github.com/atlassian/gostatsd/pkg/statsd"
 
 	"verifharness/hlib"
 	"verifharness/mmgen"
 )
 
 type input struct {
-	Kind string     `json:"kind"` // key | bucket | split
-	Src  string     `json:"src,omitempty"`
-	Tags []string   `json:"tags,omitempty"`
-	Name []int      `json:"name,omitempty"`
-	Key  []int      `json:"key,omitempty"`
-	N    int        `json:"n,omitempty"`
-	Dps  []mmgen.Dp `json:"dps,omitempty"`
+	Kind    string     `json:"kind"` // key | bucket | split | dispatch
+	Src     string     `json:"src,omitempty"`
+	Tags    []string   `json:"tags,omitempty"`
+	Name    []int      `json:"name,omitempty"`
+	Key     []int      `json:"key,omitempty"`
+	N       int        `json:"n,omitempty"`
+	Dps     []mmgen.Dp `json:"dps,omitempty"`
+	Batches int        `json:"batches,omitempty"` // dispatch: datapoint j belongs to batch j % Batches
 }
 
 func bs(a []int) string {
@@ -30,12 +37,67 @@ func bs(a []int) string {
 	}
 	return string(b)
 }
-func ints(s string) []int {
-	o := make([]int, len(s))
-	for i := range s {
-		o[i] = int(s[i])
+
+// seriesOf lists the (name, tags key) pairs of a map, all four types.
+func seriesOf(mm *gostatsd.MetricMap, f func(n, k string)) {
+	mm.Counters.Each(func(n, k string, _ gostatsd.Counter) { f(n, k) })
+	mm.Gauges.Each(func(n, k string, _ gostatsd.Gauge) { f(n, k) })
+	mm.Timers.Each(func(n, k string, _ gostatsd.Timer) { f(n, k) })
+	mm.Sets.Each(func(n, k string, _ gostatsd.Set) { f(n, k) })
+}
+
+// recAggr is an Aggregator that records the maps its worker hands it.
+type recAggr struct {
+	id  int
+	mu  *sync.Mutex
+	got [][]*gostatsd.MetricMap // shared, indexed by aggregator id
+}
+
+func (a *recAggr) ReceiveMap(mm *gostatsd.MetricMap) {
+	a.mu.Lock()
+	a.got[a.id] = append(a.got[a.id], mm)
+	a.mu.Unlock()
+}
+func (a *recAggr) Flush(time.Duration)        {}
+func (a *recAggr) Process(statsd.ProcessFunc) {}
+func (a *recAggr) Reset()                     {}
+
+// dispatch pushes the batches through a real BackendHandler with n running workers and returns,
+// per worker, the maps its aggregator received, in order.
+func dispatch(batches []*gostatsd.MetricMap, n int, mon *[]string) [][]*gostatsd.MetricMap {
+	var mu sync.Mutex
+	got := make([][]*gostatsd.MetricMap, n)
+	next := 0
+	af := statsd.AggregatorFactoryFunc(func() statsd.Aggregator {
+		a := &recAggr{id: next, mu: &mu, got: got}
+		next++
+		return a
+	})
+	bh := statsd.NewBackendHandler(nil, 1, n, len(batches)+1, af)
+	ctx, cancel := context.WithCancel(context.Background())
+	done := make(chan struct{})
+	go func() { bh.Run(ctx); close(done) }()
+	for _, mm := range batches {
+		bh.DispatchMetricMap(context.Background(), mm)
 	}
-	return o
+	// worker i must own the aggregator created i-th (the index flush reports are tagged with)
+	wait := bh.Process(context.Background(), func(workerID int, a statsd.Aggregator) {
+		if ra, ok := a.(*recAggr); !ok || ra.id != workerID {
+			mu.Lock()
+			*mon = append(*mon, fmt.Sprintf("worker %d owns aggregator %v", workerID, a))
+			mu.Unlock()
+		}
+	})
+	wait()
+	cancel()
+	select {
+	case <-done:
+	case <-time.After(20 * time.Second):
+		*mon = append(*mon, "BackendHandler.Run did not stop")
+	}
+	mu.Lock()
+	defer mu.Unlock()
+	return got
 }
 
 func runOne(em *hlib.Emitter, in input) {
@@ -44,6 +106,14 @@ func runOne(em *hlib.Emitter, in input) {
 	case "key":
 		tags := append(gostatsd.Tags(nil), in.Tags...)
 		k := gostatsd.FormatTagsKey(gostatsd.Source(in.Src), tags)
+		// the key must not depend on the order the tags were written in
+		rev := make(gostatsd.Tags, len(in.Tags))
+		for i, t := range in.Tags {
+			rev[len(in.Tags)-1-i] = t
+		}
+		if k2 := gostatsd.FormatTagsKey(gostatsd.Source(in.Src), rev); k2 != k {
+			c.Monitors = append(c.Monitors, fmt.Sprintf("tags key depends on tag order: %q vs %q", k, k2))
+		}
 		c.Obs = k
 		c.Coq = hlib.App("KeyCase", hlib.Bytes(in.Src), hlib.StrList(in.Tags), hlib.Bytes(k))
 		c.Nontrivial = len(in.Tags) >= 2
@@ -72,24 +142,31 @@ func runOne(em *hlib.Emitter, in input) {
 		if len(shards) != in.N {
 			c.Monitors = append(c.Monitors, fmt.Sprintf("Split(%d) returned %d maps", in.N, len(shards)))
 		}
+		if after := mmgen.Entries(mm); after != whole {
+			c.Monitors = append(c.Monitors, "Split changed the batch it was called on")
+		}
 		sum := 0
 		var el []string
 		for i, s := range shards {
+			i := i
 			sum += mmgen.Size(s)
 			el = append(el, mmgen.Entries(s))
 			// monitor independent of the model: every series of shard i hashes to i
-			chk := func(n, k string) {
-				if gostatsd.Bucket(n, k, in.N) != i {
-					c.Monitors = append(c.Monitors, fmt.Sprintf("series %q/%q in shard %d but Bucket says %d", n, k, i, gostatsd.Bucket(n, k, in.N)))
+			seriesOf(s, func(n, k string) {
+				if b := gostatsd.Bucket(n, k, in.N); b != i {
+					c.Monitors = append(c.Monitors, fmt.Sprintf("series %q/%q in shard %d but Bucket says %d", n, k, i, b))
 				}
-			}
-			s.Counters.Each(func(n, k string, _ gostatsd.Counter) { chk(n, k) })
-			s.Gauges.Each(func(n, k string, _ gostatsd.Gauge) { chk(n, k) })
-			s.Timers.Each(func(n, k string, _ gostatsd.Timer) { chk(n, k) })
-			s.Sets.Each(func(n, k string, _ gostatsd.Set) { chk(n, k) })
+			})
 		}
 		if sum != total {
 			c.Monitors = append(c.Monitors, fmt.Sprintf("shards hold %d series, the batch %d", sum, total))
+		}
+		// the shards merged back are the batch
+		if len(shards) > 0 {
+			back := gostatsd.MergeMaps(shards)
+			if mmgen.Entries(back) != whole {
+				c.Monitors = append(c.Monitors, "MergeMaps(Split(batch)) differs from the batch")
+			}
 		}
 		c.Obs = map[string]int{"series": total, "shards": in.N}
 		dps := make([]string, len(in.Dps))
@@ -98,8 +175,189 @@ func runOne(em *hlib.Emitter, in input) {
 		}
 		c.Coq = hlib.App("SplitCase", hlib.List(dps), hlib.Nat(in.N), whole, hlib.List(el))
 		c.Nontrivial = total >= 2 && in.N >= 2
+	case "dispatch":
+		nb := in.Batches
+		if nb < 1 {
+			nb = 1
+		}
+		per := make([][]mmgen.Dp, nb)
+		for j, d := range in.Dps {
+			per[j%nb] = append(per[j%nb], d)
+		}
+		maps := make([]*gostatsd.MetricMap, nb)
+		total := 0
+		for b := range per {
+			maps[b] = mmgen.Build(per[b])
+			total += mmgen.Size(maps[b])
+		}
+		var got [][]*gostatsd.MetricMap
+		msg := hlib.Recover(func() { got = dispatch(maps, in.N, &c.Monitors) })
+		if msg != "" {
+			c.Monitors = append(c.Monitors, "DispatchMetricMap panicked: "+msg)
+			break
+		}
+		// monitors independent of the model: a series is only ever seen by one worker, and every
+		// series of every batch reached some worker exactly once per batch
+		home := map[[2]string]int{}
+		seen := 0
+		obs := make([]string, len(got))
+		for w, ms := range got {
+			w := w
+			var dl []string
+			for _, m := range ms {
+				dl = append(dl, mmgen.Entries(m))
+				seriesOf(m, func(n, k string) {
+					seen++
+					if h, ok := home[[2]string{n, k}]; ok && h != w {
+						c.Monitors = append(c.Monitors, fmt.Sprintf("series %q/%q reached workers %d and %d", n, k, h, w))
+					}
+					home[[2]string{n, k}] = w
+				})
+			}
+			obs[w] = hlib.List(dl)
+		}
+		if seen != total {
+			c.Monitors = append(c.Monitors, fmt.Sprintf("workers received %d series, the batches held %d", seen, total))
+		}
+		c.Obs = map[string]int{"series": total, "workers": in.N, "batches": nb}
+		bl := make([]string, nb)
+		for b := range per {
+			dps := make([]string, len(per[b]))
+			for i, d := range per[b] {
+				dps[i] = d.Coq()
+			}
+			bl[b] = hlib.List(dps)
+		}
+		c.Coq = hlib.App("DispatchCase", hlib.List(bl), hlib.Nat(in.N), hlib.List(obs))
+		c.Nontrivial = total >= 2 && in.N >= 2
 	}
 	em.Emit(c)
+}
+
+// ---------------------------------------------------------------------------------------
+// generators
+
+// odd strings, all valid UTF-8 so that they survive the JSON input (bytes >= 0x80 through
+// multi-byte runes): empty, prefixes of each other, separators of the key format, NUL, high bytes
+var odd = []string{"", "a", "b", "ab", "ba", "a,b", "s:x", "s:", "s", ":", ",", ",s:x", "A", "~", " ", "\x00", "a\x00",
+	"é", "éa", "aé", "日本", "\U0001F600", "\u007f", "\u0080", "x", "a:b", "a:c", "host:1.2.3.4", "zz", "z"}
+
+func oddStr(r *hlib.Rand) string {
+	if r.Chance(1, 12) {
+		n := r.Range(8, 300)
+		b := make([]rune, n)
+		for i := range b {
+			b[i] = hlib.Pick(r, []rune{'a', 'b', ',', ':', 0xe9, 0x7f, 0x10FFFF, 'z'})
+		}
+		return string(b)
+	}
+	return hlib.Pick(r, odd)
+}
+
+// universe draws the pools datapoints are built from.  wide: names, tags and sources from the
+// same odd pool (so that (name, key) and (key, name) — equal adler sums — both occur).
+func universe(r *hlib.Rand, wide bool) *mmgen.Universe {
+	u := mmgen.NewUniverse(r, r.Range(1, 6), r.Range(1, 4), r.Range(0, 2))
+	if !wide {
+		return u
+	}
+	for i := r.Range(1, 5); i > 0; i-- {
+		u.Names = append(u.Names, oddStr(r))
+	}
+	for i := r.Range(1, 5); i > 0; i-- {
+		u.Tags = append(u.Tags, oddStr(r))
+	}
+	for i := r.Range(0, 3); i > 0; i-- {
+		u.Sources = append(u.Sources, oddStr(r))
+	}
+	u.Members = append(u.Members, oddStr(r), oddStr(r))
+	return u
+}
+
+func shardCount(r *hlib.Rand, big bool) int {
+	switch r.Intn(10) {
+	case 0:
+		return 1
+	case 1:
+		return hlib.Pick(r, []int{2, 4, 8, 16, 32, 64})
+	case 2:
+		if big {
+			return hlib.Pick(r, []int{100, 257, 1000})
+		}
+		return r.Range(1, 64)
+	default:
+		return r.Range(1, 64)
+	}
+}
+
+func genDps(r *hlib.Rand, u *mmgen.Universe, lo, hi int) []mmgen.Dp {
+	nd := r.Range(lo, hi)
+	dps := make([]mmgen.Dp, 0, nd)
+	for j := 0; j < nd; j++ {
+		dps = append(dps, u.Dp(r, 100, 110))
+	}
+	return dps
+}
+
+func gen(r *hlib.Rand, i int) input {
+	switch i % 8 {
+	case 0: // tags key
+		u := universe(r, r.Bool())
+		pool := append(append([]string{}, u.Tags...), "", "A", "a,b", "~", "ab", "a")
+		in := input{Kind: "key", Src: hlib.Pick(r, u.Sources), Tags: []string{}}
+		for j := r.Intn(7); j > 0; j-- {
+			in.Tags = append(in.Tags, hlib.Pick(r, pool))
+		}
+		if r.Chance(1, 4) && len(in.Tags) > 0 { // duplicates
+			in.Tags = append(in.Tags, in.Tags[r.Intn(len(in.Tags))])
+		}
+		if r.Chance(1, 6) { // already sorted / reverse sorted
+			sort.Strings(in.Tags)
+			if r.Bool() {
+				for a, b := 0, len(in.Tags)-1; a < b; a, b = a+1, b-1 {
+					in.Tags[a], in.Tags[b] = in.Tags[b], in.Tags[a]
+				}
+			}
+		}
+		return in
+	case 1: // bucket arithmetic on raw bytes
+		ln := r.Range(0, 24)
+		if r.Chance(1, 8) {
+			ln = r.Range(200, 6000) // the adler sums wrap mod 65521
+		}
+		name, key := make([]int, ln), make([]int, r.Range(0, 30))
+		for j := range name {
+			name[j] = hlib.Pick(r, []int{r.Intn(256), 255, 97, 0})
+		}
+		for j := range key {
+			key[j] = r.Intn(256)
+		}
+		if r.Chance(1, 3) { // both checksums large: the uint32 sum wraps
+			name = make([]int, r.Range(300, 3000))
+			key = make([]int, r.Range(300, 3000))
+			for j := range name {
+				name[j] = 255 - r.Intn(3)
+			}
+			for j := range key {
+				key[j] = 255 - r.Intn(3)
+			}
+		}
+		n := hlib.Pick(r, []int{1, 2, 3, 4, 5, 7, 8, 16, 31, 64, 1000, 65521, 65536, 1 << 20, 1<<31 - 1, 1 << 31, 1<<32 - 1})
+		if r.Bool() {
+			n = r.Range(1, 64)
+		}
+		return input{Kind: "bucket", Name: name, Key: key, N: n}
+	case 2, 3: // dispatch through the real BackendHandler, several batches sharing series
+		u := universe(r, i%8 == 3)
+		n := shardCount(r, false)
+		if n > 16 && r.Chance(2, 3) {
+			n = r.Range(1, 16)
+		}
+		return input{Kind: "dispatch", N: n, Batches: r.Range(1, 4), Dps: genDps(r, u, 0, 40)}
+	default: // Split
+		u := universe(r, i%8 >= 6)
+		return input{Kind: "split", N: shardCount(r, true), Dps: genDps(r, u, 0, 40)}
+	}
 }
 
 func main() {
@@ -110,38 +368,7 @@ func main() {
 	case "gen":
 		r := hlib.NewRand(a.Seed)
 		for i := 0; i < a.N; i++ {
-			switch i % 4 {
-			case 0:
-				u := mmgen.NewUniverse(r, 3, 5, 2)
-				nt := r.Intn(5)
-				in := input{Kind: "key", Src: hlib.Pick(r, u.Sources), Tags: []string{}}
-				for j := 0; j < nt; j++ {
-					in.Tags = append(in.Tags, hlib.Pick(r, append(u.Tags, "", "A", "a,b", "~", "ab", "a")))
-				}
-				runOne(em, in)
-			case 1:
-				ln := r.Range(0, 24)
-				if r.Chance(1, 8) {
-					ln = r.Range(200, 6000) // the adler sums wrap mod 65521
-				}
-				name, key := make([]int, ln), make([]int, r.Range(0, 30))
-				for j := range name {
-					name[j] = hlib.Pick(r, []int{r.Intn(256), 255, 97, 0})
-				}
-				for j := range key {
-					key[j] = r.Intn(256)
-				}
-				n := hlib.Pick(r, []int{1, 2, 3, 4, 5, 7, 8, 16, 31, 64, 1000, 65521, 65536, 1 << 20, 1<<31 - 1, 1 << 31, 1<<32 - 1})
-				runOne(em, input{Kind: "bucket", Name: name, Key: key, N: n})
-			default:
-				u := mmgen.NewUniverse(r, r.Range(1, 6), r.Range(1, 4), r.Range(0, 2))
-				nd := r.Range(0, 40)
-				in := input{Kind: "split", N: hlib.Pick(r, []int{1, 2, 3, 4, 5, 7, 8, 16, 64})}
-				for j := 0; j < nd; j++ {
-					in.Dps = append(in.Dps, u.Dp(r, 100, 110))
-				}
-				runOne(em, in)
-			}
+			runOne(em, gen(r, i))
 		}
 	case "run":
 		for _, raw := range a.Inputs {
